@@ -106,6 +106,7 @@ func (c *core) execFunc() (*Response, error) {
 		}
 
 		if atomic.CompareAndSwapInt32(&done, 0, 1) {
+			verifYield("execFunc:completed")
 			if err != nil {
 				errCh <- err
 				return
